@@ -142,7 +142,19 @@ def formats_agree_bounded(seed):
             'evaluations': n, 'failures': fails[:3]}
 
 
-QUICK_BOUNDED = [formats_agree_bounded]
+def _gls(seed):
+    from props import C16
+    return C16.gls_bounded(seed)
+
+
+def _macroname(seed):
+    from props import C16
+    return C16.macroname_bounded(seed)
+
+
+# the HTML highlight uses tex2txt.get_line_starts and the macro-name
+# correction of shell/utils: their bounded stand-ins (defined for C16)
+QUICK_BOUNDED = [formats_agree_bounded, _gls, _macroname]
 
 TRUSTED = [
     'tex2txt.tex2txt as seen from the shell: text and map of equal length, 1 <= |p| <= len(tex) (proved in C01 for the '
